@@ -31,6 +31,7 @@ class Adapter:
         self.types = importlib.import_module("operon_ai.core.types")
         self.met = importlib.import_module("operon_ai.state.metabolism")
         self.cfg = cfg
+        self.unit = float(cfg.get("unit", UNIT))       # length of one model time unit in seconds: 10 s, or sub-second, or more than half a day (timedelta components)
         self.clock = shims.VClock()
         shims.install_clock(self.loops, self.clock)
         self.logic = {g.value: g for g in self.loops.GateLogic}[cfg["logic"]]
@@ -45,7 +46,7 @@ class Adapter:
         with contextlib.redirect_stdout(io.StringIO()):
             budget = self.met.ATP_Store(budget=10 ** 6, silent=True)
             loop = self.loops.CoherentFeedForwardLoop(budget=budget, gate_logic=self.logic, enable_circuit_breaker=c["breaker"],
-                                                      failure_threshold=c["threshold"], recovery_timeout_seconds=c["T"] * UNIT,
+                                                      failure_threshold=c["threshold"], recovery_timeout_seconds=c["T"] * self.unit,
                                                       enable_cache=c["cache"], cache_ttl_seconds=10 ** 7, silent=True)
         ex, asr = Stub("stub-executor", budget, self.types), Stub("stub-assessor", budget, self.types)
         loop.executor, loop.assessor = ex, asr
@@ -60,7 +61,7 @@ class Adapter:
         if st.last_failure is None:
             sf = NEVER
         else:
-            sf = min(int((self.clock.t - st.last_failure).total_seconds() // UNIT), self.cfg["T"] + 1)
+            sf = min(int(round((self.clock.t - st.last_failure).total_seconds() / self.unit)), self.cfg["T"] + 1)
         return {"circuit": circ, "failures": min(st.failure_count, self.cfg["threshold"] + 1), "sinceFail": sf}
 
     def key(self, w):
@@ -86,7 +87,7 @@ class Adapter:
                     t = r.approval_token
                     obs["tokenOK"] = (t.request_hash == hashlib.sha256(self.prompt(a["p"]).encode()).hexdigest()[:16] and t.issuer == w["as"].name)
             elif op == "advance":
-                self.clock.advance(a["d"] * UNIT)
+                self.clock.advance(a["d"] * self.unit)
             elif op == "reset":
                 loop.reset_circuit_breaker()
         except Exception as ex:
